@@ -65,3 +65,13 @@ pub fn is_dir(path: &Path) -> Result<bool> {
         Err(e) => Err(e.into()),
     }
 }
+
+/// Whether anything exists at `path`, without following a final
+/// symlink: a dangling link is still an existing entry.
+pub fn lexists(path: &Path) -> Result<bool> {
+    match path.symlink_metadata() {
+        Ok(_) => Ok(true),
+        Err(e) if e.kind() == ErrorKind::NotFound => Ok(false),
+        Err(e) => Err(e.into()),
+    }
+}
